@@ -1,7 +1,7 @@
 //@ unit: C12.handlers
 //@ props: C12
 //@ source: src/dap/yadap/session/control.rs
-//@ fn: DebugSession::handle_continue
+//@ fn: DebugSession::handle_continue, DebugSession::handle_next, DebugSession::handle_configuration_done
 //@ assume: send_success_body appends exactly one response for `req` (send_response_raw: unit C12.wire, E_rsp) or fails with the transport; enqueue_event, drain_events, begin_running, current_thread_id and emit_stop_reason append no response (events only); emit_stop_reason and continue_debugee_with_reason may fail for debugger reasons
 //@ assume: signature substitution anyhow::Result<()> -> Result<(), AnyErr>; `json!`, `anyhow!`, `.context(..)` outlined
 //@ notcovered: the other handlers (each would need its own outline set); this unit is the evidence for the dispatch contract assumed by C12.wire: a handler answers at most once, exactly once when it returns Ok, and handle_continue answers BEFORE it can fail
@@ -13,12 +13,21 @@ pub struct AnyErr;
 pub struct JsonBody;
 pub struct DapRequest { pub seq: i64 }
 pub struct StopReason(pub u8);
-pub enum InternalEvent { Continued { thread_id: i64, all_threads_continued: bool } }
+pub enum InternalEvent {
+    Continued { thread_id: i64, all_threads_continued: bool },
+    Stopped { reason: String, thread_id: i64, description: Option<String> },
+    Exited { code: i32 },
+}
+pub enum DErr { ProcessExit(i32), Other(u8) }
+#[verifier::external_body] fn outline_step_str() -> (r: String) { unimplemented!() }
+#[verifier::external_body] fn outline_fmt(e: &DErr) -> (r: String) { unimplemented!() }
 
 pub struct Dbg;
 impl Dbg {
     #[verifier::external_body]
     pub fn continue_debugee_with_reason(&mut self) -> (r: Result<StopReason, AnyErr>) { unimplemented!() }
+    #[verifier::external_body]
+    pub fn step_over(&mut self) -> (r: Result<(), DErr>) { unimplemented!() }
 }
 
 pub struct DebugSession {
@@ -27,10 +36,18 @@ pub struct DebugSession {
     /// ghost: responses written for any other request
     pub answered_others: Ghost<nat>,
     pub io_failed: Ghost<bool>,
+    /// ghost: success responses among `answered`
+    pub succ: Ghost<nat>,
+    /// ghost: `continued` events queued
+    pub continued: Ghost<nat>,
+    /// ghost: the debuggee of this session has been started successfully
+    pub started: Ghost<bool>,
+    /// ghost: the session attached to a running process (no start needed)
+    pub attach: Ghost<bool>,
 }
 
 pub open spec fn quiet_step(a: &DebugSession, b: &DebugSession) -> bool {
-    a.answered@ == b.answered@ && a.answered_others@ == b.answered_others@ && a.io_failed@ == b.io_failed@
+    a.answered@ == b.answered@ && a.answered_others@ == b.answered_others@ && a.io_failed@ == b.io_failed@ && a.succ@ == b.succ@ && a.continued@ == b.continued@ && a.started@ == b.started@ && a.attach@ == b.attach@
 }
 
 #[verifier::external_body]
@@ -42,23 +59,56 @@ impl DebugSession {
     #[verifier::external_body]
     fn current_thread_id(&mut self) -> (r: i64) ensures quiet_step(old(self), final(self)), { unimplemented!() }
     #[verifier::external_body]
-    fn enqueue_event(&mut self, ev: InternalEvent) ensures quiet_step(old(self), final(self)), { unimplemented!() }
+    fn enqueue_event(&mut self, ev: InternalEvent)
+        ensures final(self).answered@ == old(self).answered@, final(self).answered_others@ == old(self).answered_others@, final(self).io_failed@ == old(self).io_failed@, final(self).succ@ == old(self).succ@, final(self).started@ == old(self).started@, final(self).attach@ == old(self).attach@,
+            final(self).continued@ == old(self).continued@ + (if ev is Continued { 1nat } else { 0nat }),
+    { unimplemented!() }
+    /// `self.session_mode == Some(SessionMode::Attach)`
+    #[verifier::external_body]
+    fn outline_is_attach(&self) -> (r: bool) ensures r == self.attach@, { unimplemented!() }
+    /// `dbg.start_debugee_with_reason().context("start debugee")`
+    #[verifier::external_body]
+    fn outline_start(&mut self) -> (r: Result<StopReason, AnyErr>)
+        ensures final(self).answered@ == old(self).answered@, final(self).answered_others@ == old(self).answered_others@, final(self).io_failed@ == old(self).io_failed@, final(self).succ@ == old(self).succ@, final(self).continued@ == old(self).continued@, final(self).attach@ == old(self).attach@,
+            r is Ok ==> final(self).started@, r is Err ==> final(self).started@ == old(self).started@,
+    { unimplemented!() }
+    #[verifier::external_body]
+    fn send_success(&mut self, req: &DapRequest) -> (r: Result<(), AnyErr>)
+        ensures final(self).answered_others@ == old(self).answered_others@, final(self).continued@ == old(self).continued@, final(self).started@ == old(self).started@, final(self).attach@ == old(self).attach@,
+            r is Ok ==> final(self).answered@ == old(self).answered@ + 1 && final(self).succ@ == old(self).succ@ + 1 && final(self).io_failed@ == old(self).io_failed@,
+            r is Err ==> final(self).answered@ == old(self).answered@ && final(self).succ@ == old(self).succ@ && final(self).io_failed@,
+    { unimplemented!() }
+    #[verifier::external_body]
+    fn emit_attached_stop(&mut self) -> (r: Result<(), AnyErr>)
+        ensures final(self).answered@ == old(self).answered@, final(self).answered_others@ == old(self).answered_others@, final(self).succ@ == old(self).succ@, final(self).started@ == old(self).started@, final(self).attach@ == old(self).attach@,
+            !final(self).io_failed@ ==> !old(self).io_failed@,
+    { unimplemented!() }
+    #[verifier::external_body]
+    fn begin_stop_epoch(&mut self) ensures quiet_step(old(self), final(self)), { unimplemented!() }
+    #[verifier::external_body]
+    fn outline_set_last_stop(&mut self) ensures quiet_step(old(self), final(self)), { unimplemented!() }
+    #[verifier::external_body]
+    fn send_err(&mut self, req: &DapRequest, message: String) -> (r: Result<(), AnyErr>)
+        ensures final(self).answered_others@ == old(self).answered_others@, final(self).succ@ == old(self).succ@, final(self).continued@ == old(self).continued@,
+            r is Ok ==> final(self).answered@ == old(self).answered@ + 1 && final(self).io_failed@ == old(self).io_failed@,
+            r is Err ==> final(self).answered@ == old(self).answered@ && final(self).io_failed@,
+    { unimplemented!() }
     #[verifier::external_body]
     fn drain_events(&mut self) -> (r: Result<(), AnyErr>)
-        ensures final(self).answered@ == old(self).answered@, final(self).answered_others@ == old(self).answered_others@,
+        ensures final(self).answered@ == old(self).answered@, final(self).answered_others@ == old(self).answered_others@, final(self).succ@ == old(self).succ@, final(self).continued@ == old(self).continued@,
             r is Err ==> final(self).io_failed@, r is Ok ==> final(self).io_failed@ == old(self).io_failed@,
     { unimplemented!() }
     #[verifier::external_body]
     fn send_success_body(&mut self, req: &DapRequest, body: JsonBody) -> (r: Result<(), AnyErr>)
-        ensures final(self).answered_others@ == old(self).answered_others@,
-            r is Ok ==> final(self).answered@ == old(self).answered@ + 1 && final(self).io_failed@ == old(self).io_failed@,
-            r is Err ==> final(self).answered@ == old(self).answered@ && final(self).io_failed@,
+        ensures final(self).answered_others@ == old(self).answered_others@, final(self).continued@ == old(self).continued@,
+            r is Ok ==> final(self).answered@ == old(self).answered@ + 1 && final(self).succ@ == old(self).succ@ + 1 && final(self).io_failed@ == old(self).io_failed@,
+            r is Err ==> final(self).answered@ == old(self).answered@ && final(self).succ@ == old(self).succ@ && final(self).io_failed@,
     { unimplemented!() }
     #[verifier::external_body]
     fn outline_debugger(&mut self) -> (r: Result<&mut Dbg, AnyErr>) ensures quiet_step(old(self), final(self)), { unimplemented!() }
     #[verifier::external_body]
     fn emit_stop_reason(&mut self, stop: StopReason) -> (r: Result<(), AnyErr>)
-        ensures final(self).answered@ == old(self).answered@, final(self).answered_others@ == old(self).answered_others@,
+        ensures final(self).answered@ == old(self).answered@, final(self).answered_others@ == old(self).answered_others@, final(self).succ@ == old(self).succ@, final(self).continued@ == old(self).continued@, final(self).started@ == old(self).started@, final(self).attach@ == old(self).attach@,
             !final(self).io_failed@ ==> !old(self).io_failed@,
     { unimplemented!() }
 
@@ -66,10 +116,38 @@ impl DebugSession {
 //@   sig: pub fn handle_continue(&mut self, req: &DapRequest) -> (r: Result<(), AnyErr>)
 //@   ensures E_hc_others: final(self).answered_others@ == old(self).answered_others@
 //@   ensures E_hc_at_most_once: !final(self).io_failed@ ==> old(self).answered@ <= final(self).answered@ <= old(self).answered@ + 1
+//@   ensures E_hc_announced: !final(self).io_failed@ ==> final(self).continued@ - old(self).continued@ == final(self).succ@ - old(self).succ@
 //@   ensures E_hc_ok_answered: !final(self).io_failed@ && r is Ok ==> final(self).answered@ == old(self).answered@ + 1
 //@   outline O_json: `json!($x)` => `outline_json()`
 //@   outline O_dbg: `self .debugger .as_mut() .ok_or_else(|| anyhow!($m))?` => `self.outline_debugger()?`
 //@   outline O_ctx: `dbg.continue_debugee_with_reason().context("continue")?` => `dbg.continue_debugee_with_reason()?`
+//@ end
+
+//@ extract: impl super::DebugSession / fn handle_next
+//@   sig: pub fn handle_next(&mut self, req: &DapRequest) -> (r: Result<(), AnyErr>)
+//@   ensures E_hn_others: final(self).answered_others@ == old(self).answered_others@
+//@   ensures E_hn_once: !final(self).io_failed@ && r is Ok ==> final(self).answered@ == old(self).answered@ + 1
+//@   ensures E_hn_at_most_once: !final(self).io_failed@ ==> old(self).answered@ <= final(self).answered@ <= old(self).answered@ + 1
+//@   ensures E_hn_announced: !final(self).io_failed@ ==> final(self).continued@ - old(self).continued@ == final(self).succ@ - old(self).succ@
+//@   outline O_json: `json!($x)` => `outline_json()`
+//@   outline O_dbg: `self .debugger .as_mut() .ok_or_else(|| anyhow!($m))?` => `self.outline_debugger()?`
+//@   rewrite W_err: `debugger::Error::ProcessExit` => `DErr::ProcessExit`
+//@   outline O_last: `self.last_stop = Some(LastStop { $f });` => `self.outline_set_last_stop();`
+//@   outline O_str: `"step".to_string()` => `outline_step_str()`
+//@   outline O_fmt: `format!("next failed: {e}")` => `outline_fmt(&e)`
+//@ end
+
+//@ extract: impl super::DebugSession / fn handle_configuration_done
+//@   file: src/dap/yadap/session/init.rs
+//@   sig: pub fn handle_configuration_done(&mut self, req: &DapRequest) -> (r: Result<(), AnyErr>)
+//@   ensures E_cd_others: final(self).answered_others@ == old(self).answered_others@
+//@   ensures E_cd_at_most_once: !final(self).io_failed@ ==> old(self).answered@ <= final(self).answered@ <= old(self).answered@ + 1
+//@   ensures E_cd_once: !final(self).io_failed@ && r is Ok ==> final(self).answered@ == old(self).answered@ + 1
+//@   ensures E_cd_truthful: !old(self).attach@ && final(self).succ@ > old(self).succ@ ==> final(self).started@
+//@   requires R_cd_fresh: !old(self).started@
+//@   outline O_dbg: `self .debugger .as_mut() .ok_or_else(|| anyhow!($m))?` => `self.outline_debugger()?`
+//@   outline O_att: `self.session_mode == Some(SessionMode::Attach)` => `self.outline_is_attach()`
+//@   outline O_start: `dbg.start_debugee_with_reason().context("start debugee")?` => `self.outline_start()?`
 //@ end
 }
 
